@@ -96,6 +96,8 @@ def _newpath():
             _cur["space"] = sp
             _cur["syms"] = []
             _cur["n"] = 0
+            _BYTES_OF.clear()
+            chmodels.BYTES.clear()
             _STATS["paths"] += 1
 
 
@@ -118,17 +120,42 @@ def _fresh(name):
 
 
 # ------------------------------------------------------------------------ symbols
+_BYTES_OF = {}   # z3 ast id of a multi-byte value -> its big-endian byte symbols
+
+
+def _mkint(label):
+    """fresh SymbolicInt (bypasses proxy_for_type, whose search heuristic sometimes realises
+    a brand-new int 'prematurely', which would turn a bounded proof into an enumeration)"""
+    return SymbolicInt(_fresh(label) + context_statespace().uniq())
+
+
 def sym_int(name: str, lo: int, hi: int):
-    """fresh integer in [lo, hi]"""
+    """fresh integer in [lo, hi].  Values wider than one byte are built from independent byte
+    symbols (value = sum b_i*256^i) so that the decoder's int.from_bytes of those same bytes is a
+    linear term for the solver; be() returns exactly those byte symbols."""
     if not SYMBOLIC:
         v = _load_replay()[name]
         if not (lo <= v <= hi):
             raise ReplayAssumptionFailed(name)
         return v
     _newpath()
-    x = proxy_for_type(int, _fresh(name))
     with NoTracing():
-        context_statespace().add(z3.And(x.var >= lo, x.var <= hi))
+        space = context_statespace()
+        if hi < 256 or lo < 0:
+            x = _mkint(name)
+            space.add(z3.And(x.var >= lo, x.var <= hi))
+        else:
+            n = max(1, (hi.bit_length() + 7) // 8)
+            bs = []
+            for i in range(n):
+                b = _mkint("%s_b%d" % (name, i))
+                space.add(z3.And(b.var >= 0, b.var <= 255))
+                bs.append(b)
+            x = chmodels._structured([b.var for b in bs])
+            total = x.var
+            if lo > 0 or hi < 256 ** n - 1:
+                space.add(z3.And(total >= lo, total <= hi))
+            _BYTES_OF[total.get_id()] = (total, bs)
         _register(name, x)
     return x
 
@@ -137,8 +164,8 @@ def sym_bool(name: str):
     if not SYMBOLIC:
         return bool(_load_replay()[name])
     _newpath()
-    x = proxy_for_type(bool, _fresh(name))
     with NoTracing():
+        x = SymbolicBool(_fresh(name) + context_statespace().uniq())
         _register(name, x)
     return x
 
@@ -151,13 +178,12 @@ def sym_bytes(name: str, n: int, lo: int = 0, hi: int = 255):
             raise ReplayAssumptionFailed(name)
         return bytes(v)
     _newpath()
-    elems = []
-    for i in range(n):
-        x = proxy_for_type(int, _fresh("%s_%d" % (name, i)))
-        with NoTracing():
-            context_statespace().add(z3.And(x.var >= lo, x.var <= hi))
-        elems.append(x)
     with NoTracing():
+        elems = []
+        for i in range(n):
+            x = _mkint("%s_%d" % (name, i))
+            context_statespace().add(z3.And(x.var >= lo, x.var <= hi))
+            elems.append(x)
         b = SymbolicBytes(elems)
         _register(name, b)
     return b
@@ -171,16 +197,15 @@ def sym_str(name: str, n: int, alphabet: str = None):
             raise ReplayAssumptionFailed(name)
         return v
     _newpath()
-    cps = []
-    for i in range(n):
-        x = proxy_for_type(int, _fresh("%s_%d" % (name, i)))
-        with NoTracing():
+    with NoTracing():
+        cps = []
+        for i in range(n):
+            x = _mkint("%s_%d" % (name, i))
             if alphabet is None:
                 context_statespace().add(z3.And(x.var >= 1, x.var <= 127))
             else:
                 context_statespace().add(z3.Or(*[x.var == ord(c) for c in sorted(set(alphabet))]))
-        cps.append(x)
-    with NoTracing():
+            cps.append(x)
         s = LazyIntSymbolicStr(cps)
         _register(name, s)
     return s
@@ -217,6 +242,9 @@ def be(value, nbytes: int):
     with NoTracing():
         if not isinstance(value, SymbolicInt):
             return list(int(value).to_bytes(nbytes, "big"))
+        hit = _BYTES_OF.get(value.var.get_id())
+        if hit is not None and hit[0].eq(value.var) and len(hit[1]) <= nbytes:
+            return [0] * (nbytes - len(hit[1])) + list(hit[1])
         out = []
         for i in reversed(range(nbytes)):
             t = value.var if i == 0 else value.var / z3.IntVal(256 ** i)
@@ -440,3 +468,141 @@ def _dump_stats():
 
 
 atexit.register(_dump_stats)
+
+
+# ------------------------------------------------------------- numeric / text oracles
+def _digit_terms(s, base):
+    """(list of digit terms or ints, list of validity conditions) for a digit string of concrete length"""
+    cps = _cps(s)
+    if len(cps) >= 2 and base == 16 and not isinstance(cps[0], SymbolicInt) \
+            and not isinstance(cps[1], SymbolicInt) and int(cps[0]) == 48 and int(cps[1]) in (120, 88):
+        cps = cps[2:]
+    digs, valid = [], []
+    for c in cps:
+        if isinstance(c, SymbolicInt):
+            v = c.var
+            if base == 16:
+                d = z3.If(z3.And(v >= 48, v <= 57), v - 48,
+                          z3.If(z3.And(v >= 65, v <= 70), v - 55,
+                                z3.If(z3.And(v >= 97, v <= 102), v - 87, -1)))
+            else:
+                d = z3.If(z3.And(v >= 48, v <= 57), v - 48, -1)
+            digs.append(d)
+            valid.append(d >= 0)
+        else:
+            ch = chr(int(c))
+            try:
+                d = int(ch, base)
+            except ValueError:
+                d = -1
+            if d < 0:
+                return None, None
+            digs.append(z3.IntVal(d))
+    return digs, valid
+
+
+def numval_eq(s, value, base=16):
+    """'the digit string s denotes the integer value' (optional 0x prefix for base 16; any zero
+    padding) as ONE boolean.  s: str or symbolic str of concrete length; value: int / symbolic int."""
+    if not SYMBOLIC:
+        try:
+            t = s[2:] if (base == 16 and s[:2] in ("0x", "0X")) else s
+            if not t or any(c not in "0123456789abcdefABCDEF"[:(22 if base == 16 else 10)] for c in t):
+                return False
+            return int(t, base) == value
+        except Exception:
+            return False
+    with NoTracing():
+        if not isinstance(s, (str, LazyIntSymbolicStr)):
+            return False
+        digs, valid = _digit_terms(s, base)
+        if not digs:
+            return False
+        bts = chmodels.bytes_of(value.var) if isinstance(value, SymbolicInt) else None
+        if base == 16 and bts is not None:
+            # digit-wise: digit i (from the right) == nibble i of the value; surplus digits / nibbles == 0
+            conds = list(valid)
+            nn = 2 * len(bts)
+            for i in range(max(nn, len(digs))):
+                d = digs[len(digs) - 1 - i] if i < len(digs) else z3.IntVal(0)
+                if i < nn:
+                    bj = bts[len(bts) - 1 - i // 2]
+                    e = bj / 16 if i % 2 else bj % 16
+                else:
+                    e = z3.IntVal(0)
+                conds.append(d == e)
+            c = z3.simplify(z3.And(*conds))
+            if z3.is_true(c) or z3.is_false(c):
+                return z3.is_true(c)
+            return SymbolicBool(c)
+        vv = value.var if isinstance(value, SymbolicInt) else z3.IntVal(int(value))
+        if isinstance(value, SymbolicInt):
+            # positional notation, digit by digit: digit j == (value div base^j) mod base, nothing above
+            L = len(digs)
+            conds = list(valid) + [vv >= 0, vv < z3.IntVal(base ** L)]
+            for j in range(L):
+                q = vv if j == 0 else vv / z3.IntVal(base ** j)
+                conds.append(digs[L - 1 - j] == q % base)
+            cond = z3.And(*conds)
+        else:
+            total = z3.Sum([d * z3.IntVal(base ** i) for i, d in enumerate(reversed(digs))]) if len(digs) > 1 else digs[0]
+            cond = z3.And(*(valid + [total == vv]))
+        return SymbolicBool(z3.simplify(cond)) if not z3.is_true(z3.simplify(cond)) and not z3.is_false(z3.simplify(cond)) \
+            else z3.is_true(z3.simplify(cond))
+
+
+def str_is(s, cps):
+    """s == ''.join(chr(c) for c in cps) as ONE boolean; cps: ints / symbolic ints"""
+    if not SYMBOLIC:
+        return s == "".join(chr(c) for c in cps)
+    with NoTracing():
+        if not isinstance(s, (str, LazyIntSymbolicStr)):
+            return False
+        mine = _cps(s)
+        if len(mine) != len(cps):
+            return False
+        terms = []
+        for x, y in zip(mine, cps):
+            xs, ys = isinstance(x, SymbolicInt), isinstance(y, SymbolicInt)
+            if not xs and not ys:
+                if int(x) != int(y):
+                    return False
+                continue
+            terms.append((x.var if xs else z3.IntVal(int(x))) == (y.var if ys else z3.IntVal(int(y))))
+        if not terms:
+            return True
+        return SymbolicBool(z3.And(*terms) if len(terms) > 1 else terms[0])
+
+
+def byte_at(b, i):
+    """b[i] for concrete i"""
+    return b[i]
+
+
+def nib(x, hi):
+    """high / low nibble of a byte value (int or symbolic) without forking"""
+    if not SYMBOLIC:
+        return (x >> 4) & 0xF if hi else x & 0xF
+    with NoTracing():
+        if isinstance(x, SymbolicInt):
+            return SymbolicInt((x.var / 16) % 16 if hi else x.var % 16)
+    return (x >> 4) & 0xF if hi else x & 0xF
+
+
+def bit_set(x, k):
+    """bit k of a non-negative int as ONE boolean (no fork)"""
+    if not SYMBOLIC:
+        return (x >> k) & 1 == 1
+    with NoTracing():
+        if isinstance(x, SymbolicInt):
+            q = x.var if k == 0 else x.var / z3.IntVal(1 << k)
+            return SymbolicBool(q % 2 == 1)
+    return (x >> k) & 1 == 1
+
+
+def is_sym(v):
+    if not SYMBOLIC:
+        return False
+    with NoTracing():
+        from crosshair.core import CrossHairValue
+        return isinstance(v, CrossHairValue)
